@@ -80,9 +80,20 @@ def build(ctx, F, fn_name="animate"):
                 r.found = {int(d): n for n, d in t[2]}.get(v)
         r.state_stores = [e for e in p.events if e["kind"] == "store" and e["cell"] == r.cell and e["path"] == (("field", R["state"]),)]
         r.other_stores = [e for e in p.events if e["kind"] == "store" and e["cell"] == r.cell and e not in r.state_stores]
+        r.f0 = f0
         r.sends = calls(p, lambda e: e["fn"]["name"] == "send" and "EventWriter" in e["callee"])
         r.updates = calls(p, lambda e: is_trait_call(e, TL, "update"))
         r.adds = calls(p, lambda e: e["args"] and e["args"][0] == ("ref", r.cell, (("field", R["pos"]),), True))
+        # idiom: position = position + delta  (a store of Add::add / saturating_add of the old position)
+        r.add_stores = []
+        for e in p.events:
+            if e["kind"] == "store" and e["cell"] == r.cell and e["path"] == (("field", R["pos"]),):
+                v = e["value"]
+                if v[0] == "call" and (v[1] == "<core::time::Duration as core::ops::arith::Add>::add" or
+                                       v[1].endswith("Duration::saturating_add")) and v[2][0] == f0("pos"):
+                    r.add_stores.append({"callee": "<core::time::Duration as core::ops::arith::AddAssign>::add_assign",
+                                         "descs": (("&mut", f0("pos")), v[2][1]), "seq": e["seq"], "store": e})
+        r.adds = r.adds + r.add_stores
         fin = eng.read_loc(p, r.cell, (("field", R["state"]),))
         r.final = pse.unit_variant(fin)[1] if pse.unit_variant(fin) else (r.s0 if fin == f0("state") else None)
         r.final_term = fin
@@ -116,7 +127,8 @@ def rules(ctx, tab, tag=""):
         ok_form = all(e["callee"].startswith("<core::time::Duration as core::ops::arith::AddAssign>::add_assign") or
                       e["callee"].endswith("Duration::saturating_add") for e in r.adds) and \
             all(e["descs"][1] == ("call", "bevy_time::time::Time::delta", (("&", ("deref", ("param", 1))),)) for e in r.adds)
-        other_pos = [e for e in r.other_stores if e["path"] == (("field", R["pos"]),)]
+        other_pos = [e for e in r.other_stores if e["path"] == (("field", R["pos"]),)
+                     and not any(a.get("store") is e for a in r.adds)]
         ctx.ob("R2" + tag, lab + "/position-only-plus-delta", ok_form and not other_pos and len(r.adds) <= 1,
                "timeline_position may only grow by exactly time.delta(), at most once per frame; writes: %s"
                % ([[show(d)[:80] for d in e["descs"]] for e in r.adds] + [show(e["value"])[:80] for e in other_pos]), site,
